@@ -811,9 +811,14 @@ func (cc *Conn) handleReq(w *responsewriter.ResponseWriter[*Conn], req *pool.Mes
 	reqMid := req.MessageID()
 
 	// The same message ID can not be handled concurrently
-	// for deduplication to work
-	l := cc.msgIDMutex.Lock(reqMid)
-	defer l.Unlock()
+	// for deduplication to work. Only confirmable and non-confirmable messages are numbered by the
+	// peer and de-duplicated; an acknowledgement or a reset carries one of our own message IDs, which
+	// may coincide with the ID of a request of the peer that is still inside its handler - it must not
+	// wait for that handler (which may be waiting for this very acknowledgement).
+	if req.Type() == message.Confirmable || req.Type() == message.NonConfirmable {
+		l := cc.msgIDMutex.Lock(reqMid)
+		defer l.Unlock()
+	}
 
 	if ok, err := cc.checkResponseCache(req, w); err != nil {
 		cc.closeConnection()
